@@ -189,6 +189,7 @@ type Machine struct {
 	access       map[raceKey]*accessRec
 	raceDetect    bool
 	noAdvanceNext bool
+	randN         int
 	nextNID       int
 	probeName     string
 	facts         map[string]bool
